@@ -30,7 +30,7 @@ with a step budget, finishes within `weight n + 2` steps (`weight` = twice the n
 minus one) for every tree, width, indent and variant, and its result is the well-founded
 `renderLines` the driver executes.  (That `renderLoop` is accepted by Lean at all is the
 well-foundedness on the total weight of the pending lines.) -/
-theorem render_terminates (v : Variant) (n : Node) (w ind : Nat) (ea : Bool) :
+theorem render_terminates (v : Variant) (n : Node) (w ind : Int) (ea : Bool) :
     renderLoopFuel cw v w ind ea (n.weight + 2) [rootLine n] [] = some (renderLines cw v n w ind ea) := by
   apply renderLoopFuel_eq
   simp only [todoWeight, Line.weight, rootLine]
@@ -39,7 +39,7 @@ theorem render_terminates (v : Variant) (n : Node) (w ind : Nat) (ea : Bool) :
 /-- **The loop computes the structural specification**: a line whose node is a non-empty container
 that must be expanded becomes `open`, then each child (recursively) at one more indent, then
 `close`; every other line is kept. -/
-theorem render_is_spec (v : Variant) (n : Node) (w ind : Nat) (ea : Bool) :
+theorem render_is_spec (v : Variant) (n : Node) (w ind : Int) (ea : Bool) :
     renderLines cw v n w ind ea = specLine ⟨cw, v, w, ind, ea⟩ (rootLine n) n :=
   renderLines_eq_spec cw v n w ind ea
 
@@ -61,7 +61,7 @@ theorem str_is_inline (n : Node) : n.str = n.flat [',', ' '] := Node.str_eq_flat
 blank after the item separators of the lines kept on one line — leaves exactly the one-line form
 with the blanks after its separators erased.  No comma, brace, key or leaf is lost, added or moved;
 in particular the comma of a one-element tuple survives every expansion. -/
-theorem layout_only (n : Node) (hw : n.wf = true) (w ind : Nat) (ea : Bool) :
+theorem layout_only (n : Node) (hw : n.wf = true) (w ind : Int) (ea : Bool) :
     ((renderLines cw .repaired n w ind ea).map Line.compact).flatten = n.compact := by
   rw [render_is_spec]
   have := specLine_compact ⟨cw, .repaired, w, ind, ea⟩ rfl n (rootLine n) hw rfl rfl
@@ -99,9 +99,9 @@ theorem repaired_render_keeps_tuple_comma :
 /-- **one_line_iff_fits.**  The output is a single line — then it is `str(node)`, i.e. the `repr()`-like
 one-line form — exactly when the value is a leaf or an empty container, or `expand_all` is off and
 the one-line form fits the width; otherwise it is `open`, at least one item line, `close`. -/
-theorem one_line_iff_fits (v : Variant) (n : Node) (w ind : Nat) (ea : Bool) :
+theorem one_line_iff_fits (v : Variant) (n : Node) (w ind : Int) (ea : Bool) :
     ((renderLines cw v n w ind ea).length = 1 ↔
-        (n.expandable = false ∨ (ea = false ∧ cellLen cw n.str ≤ w))) ∧
+        (n.expandable = false ∨ (ea = false ∧ (cellLen cw n.str : Int) ≤ w))) ∧
     ((renderLines cw v n w ind ea).length = 1 → render cw v n w ind ea = n.str) ∧
     ((renderLines cw v n w ind ea).length ≠ 1 → 3 ≤ (renderLines cw v n w ind ea).length) := by
   rw [render, render_is_spec]
@@ -143,7 +143,7 @@ theorem one_line_iff_fits (v : Variant) (n : Node) (w ind : Nat) (ea : Bool) :
 /-- **kept_line_fits.**  Whatever the tree, width and variant: a line of the output that still holds a
 non-empty container was only kept because `expand_all` is off and it passed `check_length`: its
 indentation, text, one-line form and suffix together need at most `max_width` cells. -/
-theorem kept_line_fits (v : Variant) (n : Node) (w ind : Nat) (ea : Bool) :
+theorem kept_line_fits (v : Variant) (n : Node) (w ind : Int) (ea : Bool) :
     ∀ l ∈ renderLines cw v n w ind ea, ∀ m, l.node = some m → m.expandable = true →
       ea = false ∧ l.whitespace.length + cellLen cw l.text + cellLen cw l.suffix + cellLen cw m.str ≤ w := by
   intro l hl m hm he
@@ -156,8 +156,8 @@ theorem kept_line_fits (v : Variant) (n : Node) (w ind : Nat) (ea : Bool) :
 
 /-- **indent_consistent.**  Every line of the output is indented by a whole number of
 `indent_size` blanks and by nothing else. -/
-theorem indent_consistent (v : Variant) (n : Node) (w ind : Nat) (ea : Bool) :
-    ∀ l ∈ renderLines cw v n w ind ea, ∃ d, l.whitespace = List.replicate (d * ind) ' ' := by
+theorem indent_consistent (v : Variant) (n : Node) (w ind : Int) (ea : Bool) :
+    ∀ l ∈ renderLines cw v n w ind ea, ∃ d, l.whitespace = List.replicate (d * ind.toNat) ' ' := by
   intro l hl
   rw [render_is_spec] at hl
   obtain ⟨d, hd⟩ := specLine_indent ⟨cw, v, w, ind, ea⟩ n (rootLine n) l hl
@@ -171,10 +171,10 @@ theorem indent_nested (c : Cfg) (l : Line) (n : Node) :
     specLine c l n = [l] ∨
     ∃ mid, specLine c l n = l.expandHead n :: (mid ++ [l.expandClose c.v n]) ∧ mid ≠ [] ∧
       mid = (l.expandKids n c.ind).flatMap (specOf c) ∧
-      (∀ k ∈ l.expandKids n c.ind, k.whitespace = l.whitespace ++ List.replicate c.ind ' ' ∧
+      (∀ k ∈ l.expandKids n c.ind, k.whitespace = l.whitespace ++ List.replicate c.ind.toNat ' ' ∧
         (specOf c k).head?.map (·.whitespace) = some k.whitespace) ∧
       (l.expandHead n).whitespace = l.whitespace ∧ (l.expandClose c.v n).whitespace = l.whitespace ∧
-      ∀ m ∈ mid, ∃ d, m.whitespace = l.whitespace ++ List.replicate ((d + 1) * c.ind) ' ' := by
+      ∀ m ∈ mid, ∃ d, m.whitespace = l.whitespace ++ List.replicate ((d + 1) * c.ind.toNat) ' ' := by
   rcases specLine_cases c l n with ⟨h, _⟩ | ⟨mid, h, hne, hmid, _⟩
   · exact Or.inl h
   · refine Or.inr ⟨mid, h, hne, hmid, ?_, ?_, rfl, ?_⟩
@@ -183,7 +183,7 @@ theorem indent_nested (c : Cfg) (l : Line) (n : Node) :
       obtain ⟨x, _, rfl⟩ := hk
       refine ⟨rfl, ?_⟩
       simp only [specOf]
-      generalize hk : ({ node := some x, whitespace := l.whitespace ++ List.replicate c.ind ' ', suffix := if n.tupleOfOne then [','] else x.separator } : Line) = k
+      generalize hk : ({ node := some x, whitespace := l.whitespace ++ List.replicate c.ind.toNat ' ', suffix := if n.tupleOfOne then [','] else x.separator } : Line) = k
       rcases specLine_cases c k x with ⟨h', _⟩ | ⟨mid', h', _, _, _⟩
       · rw [h']; subst hk; rfl
       · rw [h']; subst hk
@@ -202,7 +202,7 @@ theorem indent_nested (c : Cfg) (l : Line) (n : Node) :
         congr 2; rw [Nat.add_mul]; omega⟩
 
 /-- In cells: with blanks one cell wide, a kept container line is at most `max_width` cells long. -/
-theorem kept_line_fits_cells (hs : cw ' ' = 1) (v : Variant) (n : Node) (w ind : Nat) (ea : Bool) :
+theorem kept_line_fits_cells (hs : cw ' ' = 1) (v : Variant) (n : Node) (w ind : Int) (ea : Bool) :
     ∀ l ∈ renderLines cw v n w ind ea, l.expandable = true → cellLen cw l.str ≤ w := by
   intro l hl he
   cases hn : l.node with
@@ -217,7 +217,7 @@ theorem kept_line_fits_cells (hs : cw ' ' = 1) (v : Variant) (n : Node) (w ind :
     omega
 
 /-- With `expand_all`, no non-empty container is left on one line. -/
-theorem expand_all_expands_all (v : Variant) (n : Node) (w ind : Nat) :
+theorem expand_all_expands_all (v : Variant) (n : Node) (w ind : Int) :
     ∀ l ∈ renderLines cw v n w ind true, l.expandable = false := by
   intro l hl
   cases he : l.expandable with
@@ -325,22 +325,41 @@ theorem abbrev_counts_exact_map (cfg : TravCfg) (h : Heap) (fuel : Nat) (visited
   · cases hml : cfg.maxLength <;> simp only [hml] at hlen ⊢ <;> exact hlen
   · rw [Node.children, withMore_eq]; cases cfg.maxLength <;> rfl
 
-/-- **abbrev_counts_exact (characters).**  A `str`/`bytes` of `L > max_string` characters is printed as
-the `repr` of its first `max_string` characters, `+`, and `L - max_string`; a shorter one in full. -/
+/-- **abbrev_counts_exact (characters).**  For `max_string = m ≥ 0`: a `str`/`bytes` of `L > m` characters
+is printed as the `repr` of its first `m` characters, `+`, and `L - m`; a shorter one in full.
+(For a *negative* `max_string` — outside the documented domain — the code still truncates: it prints
+`obj[:m]`, i.e. all but the last `|m|` characters, and reports `L + |m|`; the model does the same, see
+`max_string_negative`.) -/
 theorem max_string_exact (pyRepr : Bool → Str → Str) (m : Nat) (b : Bool) (cs : Str) :
-    (m < cs.length → toRepr pyRepr (some m) (.str b cs) = pyRepr b (cs.take m) ++ ['+'] ++ natStr (cs.length - m)
+    (m < cs.length → toRepr pyRepr (some (m : Int)) (.str b cs) = pyRepr b (cs.take m) ++ ['+'] ++ natStr (cs.length - m)
         ∧ (cs.take m).length + (cs.length - m) = cs.length) ∧
-    (cs.length ≤ m → toRepr pyRepr (some m) (.str b cs) = pyRepr b cs) ∧
+    (cs.length ≤ m → toRepr pyRepr (some (m : Int)) (.str b cs) = pyRepr b cs) ∧
     toRepr pyRepr none (.str b cs) = pyRepr b cs := by
-  refine ⟨fun h => ⟨by simp only [toRepr, strRepr, gt_iff_lt, h, if_true], by simp only [List.length_take]; omega⟩,
-    fun h => by simp only [toRepr, strRepr, gt_iff_lt, Nat.not_lt.mpr h, if_false], rfl⟩
+  refine ⟨fun h => ⟨?_, by simp only [List.length_take]; omega⟩, fun h => ?_, rfl⟩
+  · have h1 : (cs.length : Int) > (m : Int) := by omega
+    have h2 : ((cs.length : Int) - (m : Int)).toNat = cs.length - m := by omega
+    simp only [toRepr, strRepr, h1, if_true, sliceTo, h2]
+    simp
+  · have h1 : ¬ (cs.length : Int) > (m : Int) := by omega
+    simp only [toRepr, strRepr, h1, if_false]
+
+/-- What the code does with a negative `max_string` (not an abbreviation one can trust: the count it
+reports is `L + |m|`, not the number of omitted characters). -/
+theorem max_string_negative (pyRepr : Bool → Str → Str) (k : Nat) (b : Bool) (cs : Str) :
+    toRepr pyRepr (some (-(k + 1 : Nat) : Int)) (.str b cs) =
+      pyRepr b (cs.take (cs.length - (k + 1))) ++ ['+'] ++ natStr (cs.length + (k + 1)) := by
+  have h1 : (cs.length : Int) > (-(k + 1 : Nat) : Int) := by omega
+  have h2 : ((cs.length : Int) - (-(k + 1 : Nat) : Int)).toNat = cs.length + (k + 1) := by omega
+  have h3 : ¬ ((-(k + 1 : Nat) : Int) ≥ 0) := by omega
+  have h4 : ((cs.length : Int) + (-(k + 1 : Nat) : Int)).toNat = cs.length - (k + 1) := by omega
+  simp only [toRepr, strRepr, h1, if_true, sliceTo, h2, h3, if_false, h4]
 
 /-! ## End to end, and the second defect -/
 
 /-- **pretty_repr, repaired code**: for every heap (cyclic or not), every option set and every width,
 `pretty_repr` returns a text, and that text is the one-line form of the traversed tree up to layout. -/
 theorem pretty_repr_layout_only (cfg : TravCfg) (h : Heap) (hok : HeapOk h) (root : Nat)
-    (hr : root < h.length) (w ind : Nat) (ea : Bool) :
+    (hr : root < h.length) (w ind : Int) (ea : Bool) :
     ∃ n, traverse cfg h root = some n ∧
       prettyRepr cw { cfg with variant := .repaired } h root w ind ea ≠ none ∧
       ((renderLines cw .repaired n w ind ea).map Line.compact).flatten = n.compact := by
@@ -364,18 +383,18 @@ theorem repaired_empty_array :
 /-! ## Non-vacuity: the hypotheses are met by concrete non-trivial values -/
 
 /-- `a = [1, a]` (a self-referential list): the heap is well-formed, `traverse` ends with the marker. -/
-example : HeapOk [.seq .list [] [1, 0], .leaf (.atom ['1'])] := by
+example : HeapOk [.seq .list [] [1, 0], .leaf (.atom ['1']) false] := by
   intro o ho
   simp only [List.mem_cons, List.not_mem_nil, or_false] at ho
   rcases ho with rfl | rfl <;> simp
-example : (traverse (cfg0 .today) [.seq .list [] [1, 0], .leaf (.atom ['1'])] 0).map Node.str
+example : (traverse (cfg0 .today) [.seq .list [] [1, 0], .leaf (.atom ['1']) false] 0).map Node.str
     = some "[1, ...]".toList := by decide
 /-- the F24 tree is well-formed and expandable; at width 3 it does not fit. -/
 example : tupleOfList.wf = true ∧ tupleOfList.expandable = true ∧ ¬ cellLen (fun _ => 1) tupleOfList.str ≤ 3 := by decide
 example : tupleOfList.str = "([1, 2],)".toList ∧ tupleOfList.compact = "([1,2],)".toList := by decide
 /-- abbreviation: 3 items, `max_length = 1`. -/
 example : (traverse { cfg0 .today with maxLength := some 1 }
-    [.seq .tuple [] [1, 1, 1], .leaf (.atom ['7'])] 0).map Node.str = some "(7, ... +2)".toList := by decide
+    [.seq .tuple [] [1, 1, 1], .leaf (.atom ['7']) false] 0).map Node.str = some "(7, ... +2)".toList := by decide
 example : toRepr (fun _ s => ['\''] ++ s ++ ['\'']) (some 2) (.str false "hello".toList) = "'he'+3".toList := by decide
 
 end RichModel.C16
